@@ -45,21 +45,27 @@ def swap(v):
 
 
 def pareto_ranks(costs):
-    """rank = 1 if undominated else 1 + max rank of its dominators (memoised recursion over the dominance DAG)."""
+    """rank = 1 if undominated else 1 + max rank of its dominators (memoised depth-first walk over the dominance DAG,
+    with an explicit stack so that chains of many hundred members do not hit the recursion limit)."""
     n = len(costs)
     doms = [[j for j in range(n) if j != i and verdict(costs[j], costs[i]) == 1] for i in range(n)]
     memo = {}
-
-    def rank(i, stack=()):
-        if i in memo:
-            return memo[i]
-        if i in stack:
-            raise ValueError("dominance cycle")
-        r = 1 if not doms[i] else 1 + max(rank(j, stack + (i,)) for j in doms[i])
-        memo[i] = r
-        return r
-
-    return [rank(i) for i in range(n)]
+    for s in range(n):
+        stack = [s]
+        while stack:
+            if len(stack) > n * n + n + 1:
+                raise ValueError("dominance cycle")
+            i = stack[-1]
+            if i in memo:
+                stack.pop()
+                continue
+            pending = [j for j in doms[i] if j not in memo]
+            if pending:
+                stack.extend(pending)
+            else:
+                memo[i] = 1 + max((memo[j] for j in doms[i]), default=0)
+                stack.pop()
+    return [memo[i] for i in range(n)]
 
 
 def nondominated_set(vectors):
